@@ -1063,6 +1063,8 @@ class Engine:
             return BUILTINS[f.name](self, st, args, kwargs)
         if isinstance(f, VBound):
             return self.call_method(f.obj, f.name, args, kwargs, st)
+        if isinstance(f, VRef) and "call:ref" in self.contracts:
+            return self.contracts["call:ref"](self, st, [f] + list(args), kwargs)
         if isinstance(f, VClass):
             if "new:" + f.name not in self.contracts and f.name in BUILTINS:
                 return BUILTINS[f.name](self, st, args, kwargs)
